@@ -194,16 +194,21 @@ def _optimise_operator(op):
 
             same_leaf[key] = [res_op, FieldAdapter(res_op.target, next(prepend_id) + str(id(res_op)))]
 
+            shortened = set()
             for leaf in id_leaf[key]:
                 parent = nodes[leaf[0]][0]
                 edited.add(id_dic[id(parent)][0])
                 attr = left_parser(leaf[1])
                 leaf_op = getattr(parent, attr)
                 if isinstance(leaf_op, _OpChain):
+                    if id(leaf_op) in shortened:
+                        # the same chain object hangs below several parents: it has been rewritten already
+                        continue
                     if first_difference == len(leaf_op._ops):
                         setattr(parent, attr, same_leaf[key][1])
                     else:
                         leaf_op._ops = leaf_op._ops[:-first_difference] + (same_leaf[key][1],)
+                        shortened.add(id(leaf_op))
                 else:
                     setattr(parent, attr, same_leaf[key][1])
         return key_list_leaf, same_leaf
@@ -259,11 +264,29 @@ def _optimise_operator(op):
     if isinstance(op, _OpChain):
         op._domain = op._ops[-1].domain
 
-    # Insert trees before leaves
-    for key in key_list_subtrees:
-        op = op.partial_insert(same_subtrees[key][1].adjoint(same_subtrees[key][0]))
-    for key in reversed(key_list_op):
-        op = op.partial_insert(same_op[key][1].adjoint(same_op[key][0]))
+    # Insert trees before leaves. An inserted sub-expression that reads the key of another one has to be
+    # inserted before it (the operator inserted last is evaluated first).
+    from .operators.chain_operator import ChainOperator
+
+    def reads(tree, adapter):
+        if tree is adapter:
+            return True
+        if isinstance(tree, (_OpChain, ChainOperator)):
+            return any(reads(oo, adapter) for oo in tree._ops)
+        if isnode(tree):
+            return reads(tree._op1, adapter) or reads(tree._op2, adapter)
+        return False
+
+    todo = [same_subtrees[key] for key in key_list_subtrees]
+    todo += [same_op[key] for key in reversed(key_list_op)]
+    while len(todo) > 0:
+        for ii, (_, adapter) in enumerate(todo):
+            if not any(reads(other, adapter) for jj, (other, _) in enumerate(todo) if jj != ii):
+                break
+        else:
+            raise RuntimeError("cyclic dependency between shared sub-expressions")
+        sub, adapter = todo.pop(ii)
+        op = op.partial_insert(adapter.adjoint(sub))
     return op
 
 
